@@ -453,7 +453,11 @@ def run_check(prop: str, *, lean_modules: list[str], required_theorems: list[str
         "checker_cmd": f"cd lean && lake build {' '.join(lean_modules)} driver && "
                        f"lake env lean --run Audit.lean {' '.join(lean_modules)}; "
                        f"then ./bin/check {prop} {tier}",
-        "trusted_base": TRUSTED_COMMON + trusted_extra,
+        "trusted_base": TRUSTED_COMMON + trusted_extra + (
+            ["source translators (harness/translate.py, translate_class.py, translate_skel.py) and the tables in "
+             "harness/ties/*.lean that say which model actions a call of the source stands for: the generated definitions are "
+             "taken to mean what the source says; the tie theorems about them are checked by Lean on this run"]
+            if any(r.name == "source-translation" for r in results) else []),
         "theorems": sorted(lean.theorems),
         "axioms_used": sorted({a for axs in lean.theorems.values() for a in axs}),
         "auto_generated_theorems_audited": lean.auto_theorems,
